@@ -1268,3 +1268,150 @@ pub fn replay_raw(prop: &'static Prop, tier: Tier, path: &str) -> (i32, Value) {
         Err(_) => (4, json!({"outcome": "error", "detail": "replay thread panicked"})),
     }
 }
+
+// ------------------------------------------------------------------------------------------------
+// Fuzz-stage support (see fuzzapi.rs, /verif/fuzz, tools/fuzz_stage.sh)
+
+fn find_stage(prop: &'static Prop, name: &str) -> Option<(usize, &'static Stage)> {
+    prop.stages
+        .iter()
+        .enumerate()
+        .find(|(_, s)| s.name == name)
+        .or_else(|| prop.stages.iter().enumerate().find(|(_, s)| matches!(s.kind, StageKind::Random { .. })))
+}
+
+/// Seed corpus for a fuzz campaign: the first `n` generated cases of a random stage as raw files,
+/// plus the byte vectors of saved regressions / known repros / replays of that stage.
+pub fn write_corpus(prop: &'static Prop, stage_name: &str, seed: u64, n: u64, out: &str) -> i32 {
+    let _ = std::fs::create_dir_all(out);
+    if stage_name == "@text" {
+        // text mode: the repository's own test inputs plus saved {"text":...} files
+        let mut k = 0u64;
+        for dir in ["regressions", "known", "replays"] {
+            let d = format!("{}/{}/{}", verif_root(), dir, prop.id);
+            if let Ok(rd) = std::fs::read_dir(&d) {
+                let mut files: Vec<_> = rd.flatten().map(|e| e.path()).collect();
+                files.sort();
+                for f in files {
+                    if let Ok(j) = std::fs::read_to_string(&f).map_err(|_| ()).and_then(|s| serde_json::from_str::<Value>(&s).map_err(|_| ())) {
+                        if let Some(t) = j["text"].as_str() {
+                            let _ = std::fs::write(format!("{}/saved-{}", out, k), t);
+                            k += 1;
+                        }
+                    }
+                }
+            }
+        }
+        println!("{}", k);
+        return 0;
+    }
+    let Some((si, st)) = find_stage(prop, stage_name) else { return 4 };
+    let StageKind::Random { max_len, .. } = &st.kind else { return 4 };
+    let ml = max_len(Tier::Thorough);
+    for i in 0..n {
+        let b = gen_case(seed, prop.id, si, i, ml);
+        let _ = std::fs::write(format!("{}/gen-{}", out, i), &b);
+    }
+    let mut k = 0;
+    for dir in ["regressions", "known", "replays"] {
+        let d = format!("{}/{}/{}", verif_root(), dir, prop.id);
+        if let Ok(rd) = std::fs::read_dir(&d) {
+            let mut files: Vec<_> = rd.flatten().map(|e| e.path()).collect();
+            files.sort();
+            for f in files {
+                if let Ok(j) = std::fs::read_to_string(&f).map_err(|_| ()).and_then(|s| serde_json::from_str::<Value>(&s).map_err(|_| ())) {
+                    if j["stage"].as_str().map(|s| s.trim_start_matches("regression:") == st.name).unwrap_or(false) {
+                        if let Some(h) = j["hex"].as_str() {
+                            let _ = std::fs::write(format!("{}/saved-{}", out, k), unhex(h));
+                            k += 1;
+                        }
+                    }
+                }
+            }
+        }
+    }
+    println!("{}", n + k);
+    0
+}
+
+/// Deciding step for a fuzzer-found input: re-run the raw input in the standard build, in a child
+/// process on the property's stack size. Exit 0: passes or is a listed known finding; 1: confirmed
+/// (VIOLATION line printed, replay file written under replays/<ID>/).
+pub fn confirm_raw(prop: &'static Prop, tier: Tier, stage_name: &str, raw: &str, exe: &str) -> i32 {
+    install_panic_hook();
+    set_known_for(prop.id);
+    let Ok(bytes) = std::fs::read(raw) else {
+        eprintln!("cannot read {}", raw);
+        return 4;
+    };
+    let known: Vec<String> = load_known(prop.id).into_iter().map(|k| k.sig).collect();
+    let cfg = RunCfg { tier, seed: 0, prop: prop.id, exe: exe.to_string() };
+    let h = fnv(&bytes);
+    let tmp = format!("{}/confirm-{:016x}.json", work_dir(), h);
+    let file_json = |b: &[u8], sig: &str, detail: &str| -> Value {
+        if stage_name == "@text" {
+            json!({"property": prop.id, "text": String::from_utf8_lossy(b), "sig": sig, "detail": detail, "found_by": "libFuzzer"})
+        } else {
+            let st = find_stage(prop, stage_name).map(|x| x.1.name).unwrap_or("");
+            json!({"property": prop.id, "stage": st, "index": 0, "hex": hex(b), "sig": sig, "detail": detail, "found_by": "libFuzzer"})
+        }
+    };
+    if stage_name == "@text" && std::str::from_utf8(&bytes).is_err() {
+        println!("CONFIRM property={} input is not UTF-8: ignored", prop.id);
+        return 0;
+    }
+    let _ = std::fs::write(&tmp, file_json(&bytes, "", "").to_string());
+    let res = replay_in_child(&cfg, &tmp, None);
+    let _ = std::fs::remove_file(&tmp);
+    match res {
+        ReplayResult::Pass => {
+            println!("CONFIRM property={} input {} passes in the standard build (not a violation)", prop.id, raw);
+            0
+        }
+        ReplayResult::Error(e) => {
+            println!("CONFIRM property={} replay error: {}", prop.id, e);
+            2
+        }
+        ReplayResult::Fail(sig, detail) => {
+            if known.contains(&sig) {
+                println!("CONFIRM property={} input {} is the known finding {}", prop.id, raw, sig);
+                return 0;
+            }
+            // shrink by block deletion / zeroing while the signature stays the same (children, so a
+            // crash cannot take this process down)
+            let mut cur = bytes.clone();
+            let deadline = Instant::now() + Duration::from_secs(60);
+            let fails = |b: &[u8]| -> bool {
+                let t = format!("{}/confirm-{:016x}-s.json", work_dir(), fnv(b));
+                let _ = std::fs::write(&t, file_json(b, "", "").to_string());
+                let r = replay_in_child(&cfg, &t, None);
+                let _ = std::fs::remove_file(&t);
+                matches!(r, ReplayResult::Fail(s, _) if s == sig)
+            };
+            let mut size = (cur.len() / 2).max(1);
+            while size >= 1 && Instant::now() < deadline {
+                let mut i = 0;
+                while i + size <= cur.len() && Instant::now() < deadline {
+                    let mut cand = cur.clone();
+                    cand.drain(i..i + size);
+                    if (stage_name != "@text" || std::str::from_utf8(&cand).is_ok()) && fails(&cand) {
+                        cur = cand;
+                    } else {
+                        i += size;
+                    }
+                }
+                if size == 1 {
+                    break;
+                }
+                size /= 2;
+            }
+            let dir = format!("{}/replays/{}", verif_root(), prop.id);
+            let _ = std::fs::create_dir_all(&dir);
+            let path = format!("{}/fuzz-{:016x}.json", dir, fnv(&cur));
+            let _ = std::fs::write(&path, serde_json::to_string_pretty(&file_json(&cur, &sig, &detail)).unwrap() + "\n");
+            println!("detail: {}", truncate(&detail, 1500));
+            println!("VIOLATION property={} replay={}", prop.id, path);
+            1
+        }
+    }
+}
